@@ -49,7 +49,7 @@ Qed.
    server and the client has the key - with a correct MAC) *)
 Definition front_ok (q : request) (g : dgram) : Prop :=
   match g_front g with
-  | FrontIP src => src = q_server q
+  | FrontIP src sport => src = q_server q /\ sport = q_port q
   | FrontSCION v =>
       sv_decode_ok v = true /\ 2 <= sv_nlayers v /\ sv_last v = 0 /\ sv_len_ok v = true /\
       sv_src_ia v = q_server_ia q /\ sv_src_host v = Some (q_server q) /\
@@ -112,10 +112,10 @@ Section Proofs.
   (* ---- the checks, one by one ---- *)
   Lemma front_check_ok : forall q g, front_check q g = None <-> front_ok q g.
   Proof.
-    intros q g. unfold front_check, front_ok. destruct (g_front g) as [src|v].
-    - destruct (src =? q_server q) eqn:E.
-      + apply Z.eqb_eq in E. split; auto.
-      + apply Z.eqb_neq in E. split; intro H; [discriminate | contradiction].
+    intros q g. unfold front_check, front_ok. destruct (g_front g) as [src sport|v].
+    - destruct ((src =? q_server q) && (sport =? q_port q)) eqn:E.
+      + apply andb_true_iff in E. destruct E as [E1 E2]. apply Z.eqb_eq in E1. apply Z.eqb_eq in E2. split; auto.
+      + split; intro H; [discriminate|]. destruct H as [H1 H2]. subst. rewrite !Z.eqb_refl in E. discriminate.
     - destruct (sv_decode_ok v) eqn:E1; simpl.
       2:{ split; intro H; [discriminate | destruct H as [H _]; discriminate]. }
       destruct (2 <=? sv_nlayers v) eqn:E2; simpl.
@@ -950,6 +950,14 @@ Section Proofs.
     Qed.
   End OracleHistory.
 
+  (* a datagram from the server's address but another UDP port does not come from the queried server *)
+  Theorem other_port_not_accepted : forall q nr g src sport,
+    g_front g = FrontIP src sport -> sport <> q_port q -> forall r, handle open q nr (EvDgram g) <> SAccept r.
+  Proof.
+    intros q nr g src sport E HP. apply handle_not_genuine. intros h (_ & _ & G3 & _).
+    unfold front_ok in G3. rewrite E in G3. destruct G3 as [_ G3]. contradiction.
+  Qed.
+
   (* ---- the SCION packet authenticator (SPAO, DRKey host-host key) ---- *)
 
   (* the checks of the SCION client that precede the authenticator: the parse
@@ -1050,7 +1058,7 @@ Section Proofs.
   Proof.
     intros q nr g HA.
     assert (HFC : front_check q g = front_check (without_authkey q) g).
-    { unfold front_check. destruct (g_front g) as [src|v] eqn:E; [reflexivity|].
+    { unfold front_check. destruct (g_front g) as [src sport|v] eqn:E; [reflexivity|].
       cbn [without_authkey q_server_ia q_server q_local_ia q_local q_authkey].
       destruct (sv_e2e v) eqn:E2; [|reflexivity].
       destruct (q_authkey q); [|reflexivity].
@@ -1088,7 +1096,7 @@ Section Proofs.
        time_of_time64 (h_rx h) (q_ref q) <= time_of_time64 (h_tx h) (q_ref q)) /\
     (is_interleaved q h = true ->
        time_of_time64 (q_psrx q) (q_ref q) <= time_of_time64 (h_tx h) (q_ref q)) /\
-    (forall src, g_front g = FrontIP src -> src = q_server q) /\
+    (forall src sport, g_front g = FrontIP src sport -> src = q_server q /\ sport = q_port q) /\
     (forall v, g_front g = FrontSCION v ->
        sv_last v = 0 /\ sv_src_ia v = q_server_ia q /\ sv_src_host v = Some (q_server q) /\
        sv_dst_ia v = q_local_ia q /\ sv_dst_host v = Some (q_local q)).
@@ -1105,7 +1113,7 @@ Section Proofs.
     split; [intro EI; rewrite EI in G8; exact G8|].
     unfold front_ok in G3.
     split.
-    - intros src E. rewrite E in G3. exact G3.
+    - intros src sport E. rewrite E in G3. exact G3.
     - intros v E. rewrite E in G3. destruct G3 as (_ & _ & A & _ & B & C & D & F & _). auto.
   Qed.
 End Proofs.
@@ -1169,6 +1177,22 @@ Section Ideal.
     simpl. intro Hc. discriminate.
   Qed.
 End Ideal.
+
+(* ---- the cookie pool: Fetcher.StoreCookie keeps at most eight cookies and invents none ---- *)
+Lemma store_cookies_bound : forall cs pool, (length pool <= 8)%nat -> (length (store_cookies pool cs) <= 8)%nat.
+Proof.
+  unfold store_cookies. induction cs as [|c cs IH]; intros pool H; simpl; [exact H|]. apply IH.
+  unfold store_cookie. destruct (896 <? length c)%nat; [exact H|].
+  destruct (8 <=? length pool)%nat eqn:E; [exact H|]. apply Nat.leb_gt in E. rewrite app_length. simpl. lia.
+Qed.
+
+Lemma store_cookies_from : forall cs pool c, In c (store_cookies pool cs) -> In c pool \/ In c cs.
+Proof.
+  unfold store_cookies. induction cs as [|x cs IH]; intros pool c H; simpl in *; [auto|].
+  apply IH in H. destruct H as [H|H]; [|auto]. unfold store_cookie in H.
+  destruct (896 <? length x)%nat; [auto|]. destruct (8 <=? length pool)%nat; [auto|].
+  apply in_app_or in H. destruct H as [H|[H|[]]]; auto.
+Qed.
 
 (* ---- the timestamps that enter a measurement are those of the authenticated header ---- *)
 Lemma nth_firstn_lt : forall (l : list Z) n i d, (i < n)%nat -> nth i (firstn n l) d = nth i l d.
